@@ -15,6 +15,7 @@ import (
 const v14A = `
 interface Node { id: ID! }
 type Human implements Node { id: ID! name(upper: Boolean): String! }
+type Robot implements Node { id: ID! model: String }
 type Query { node(id: ID!): Node me: Human ping: String }
 type Mutation { ping: String }
 `
@@ -45,6 +46,8 @@ func v14Pool() []v14Op {
 		{q: `{ me { x: name } }`, sel: 6, typ: "query"},
 		{q: `{ me { y: name } }`, sel: 7, typ: "query"},
 		{q: `{ me { name phone } }`, sel: 2, typ: "query"},
+		{q: `{ me { id name phone } }`, sel: 8, typ: "query"},
+		{q: `{ node(id: "1") { ... on Node { ... on Human { name phone } } } }`, sel: 9, typ: "query"},
 	}
 }
 
@@ -81,9 +84,16 @@ func v14Same(a, b []*QueryPlanStep, path string) {
 func v14SameScrub(a, b ScrubFields) {
 	verifAssert(len(a) == len(b), "same scrub table")
 	for k, m := range a {
-		verifAssert(len(b[k]) == len(m), "same scrub table")
+		verifAssert(len(b[k]) == len(m), "same scrub table: "+k)
 		for t, fs := range m {
-			verifAssert(len(b[k][t]) == len(fs), "same scrub table")
+			verifAssert(len(b[k][t]) == len(fs), "same scrub table: "+k+" "+t)
+			for _, f := range fs {
+				found := false
+				for _, g := range b[k][t] {
+					found = found || f == g
+				}
+				verifAssert(found, "same scrub table: "+k+" "+t+" "+f)
+			}
 		}
 	}
 }
@@ -147,9 +157,13 @@ func VerifCacheHistory() {
 		got, gerr := cp.Plan(env.ctx(op))
 		want, werr := sp.Plan(env.ctx(op))
 		verifAssert((gerr == nil) == (werr == nil), "the caching planner fails iff the plain planner fails")
+		if werr != nil {
+			verifReach("unplannable operation")
+		}
 		if gerr != nil || werr != nil {
 			continue
 		}
+		verifAssert(got != nil && want != nil, "a successful planning returns a plan")
 		v14Same(got.RootSteps, want.RootSteps, "")
 		v14SameScrub(got.ScrubFields, want.ScrubFields)
 	}
